@@ -64,7 +64,9 @@ def main():
     meta = json.load(open(os.path.join(seed, "meta.json")))
     pids = args[1:] or [meta["property"]]
     if "--verify" in sys.argv:
-        print(json.dumps(verify(seed, meta), indent=1))
+        vr = verify(seed, meta)
+        print(json.dumps(vr, indent=1))
+        meta["verified"] = vr
     st = sh("git -C %s status --porcelain" % REPO)
     if st.stdout.strip():
         print("refusing: /repo working tree is not clean:\n" + st.stdout)
@@ -86,6 +88,17 @@ def main():
         # the checks rewrote evidence files on a modified tree: restore the committed ones
         sh("git -C %s checkout -- evidence" % VERIF)
     print(json.dumps({k: len(v) for k, v in fired.items()}))
+    if "--record" in sys.argv:
+        import time
+        meta.setdefault("ran", [])
+        meta["ran"] = [r for r in meta["ran"] if r.get("checks") != sorted(fired)] + [{
+            "cmd": "tools/seedtest.py %s %s" % (os.path.relpath(seed, VERIF), " ".join(pids)),
+            "checks": sorted(fired), "tier": tier,
+            "violation_lines": {k: v[:3] for k, v in fired.items()},
+            "detected": any(fired.values()), "at": time.strftime("%Y-%m-%dT%H:%M:%SZ", time.gmtime())}]
+        if "--verify" in sys.argv:
+            pass
+        json.dump(meta, open(os.path.join(seed, "meta.json"), "w"), indent=1)
     sys.exit(0 if any(fired.values()) else 1)
 
 
